@@ -224,26 +224,59 @@ Definition loc_order (l : list obj) : obj -> obj -> bool :=
   | x :: _ => if str_eqb (loc_strand x) S_minus then gt_stop else lt_start
   | [] => lt_start
   end.
+(* `locs[i] = Location( *loc )` for an element that is not a Location (fts.py:173-178): positional binding of a list;
+   any exception inside becomes TypeError *)
+Definition loc_of_list (l : list obj) : res obj :=
+  match l with
+  | a :: b :: rest =>
+      match rest with
+      | [] => construct_loc [(K_start, a); (K_stop, b)]
+      | [s] => construct_loc [(K_start, a); (K_stop, b); (K_strand, s)]
+      | [s; d] => construct_loc [(K_start, a); (K_stop, b); (K_strand, s); (K_defect, d)]
+      | [s; d; m] => construct_loc [(K_start, a); (K_stop, b); (K_strand, s); (K_defect, d); (K_meta, m)]
+      | _ => Err E_Type
+      end
+  | _ => Err E_Type
+  end.
+Definition coerce_loc (o : obj) : res obj :=
+  match o with
+  | OLoc _ _ _ _ _ => Ok o
+  | OList l => match loc_of_list l with Ok x => Ok x | Err _ => Err E_Type end
+  | _ => Err E_Type
+  end.
 Definition location_tuple (l : list obj) : res (list obj) :=
   match l with
   | [] => Err E_Value
-  | _ => if negb (forallb is_loc l) then Err E_Type
-         else if negb (same_strands l) then Err E_Value
-         else Ok (sort_by (loc_order l) l)
+  | _ => bind (mapM coerce_loc l) (fun l' =>
+         if negb (same_strands l') then Err E_Value
+         else Ok (sort_by (loc_order l') l'))
   end.
 
-(* Feature(KW d), fts.py:281-287 (the start/stop/strand keywords of **kw are never written by the encoder: TypeError here) *)
+(* Feature(KW d), fts.py:281-287; the other keywords go to LocationTuple(locs=locs, start=, stop=, strand=), fts.py:156-168 *)
+Definition non_none (o : option obj) : option obj := match o with Some ONone => None | x => x end.
 Definition construct_feat (d : list (str * obj)) : res obj :=
-  if negb (only_keys [K_type; K_locs; K_meta] d) then Err E_Type else
+  if negb (only_keys [K_type; K_locs; K_meta; K_start; K_stop; K_strand] d) then Err E_Type else
   bind (opt_meta (lookup K_meta d)) (fun m =>
   let m' := match lookup K_type d with
             | None | Some ONone => m
             | Some t => set_key K_type (conv_val t) m
             end in
-  match lookup K_locs d with
-  | Some (OList l) => bind (location_tuple l) (fun ls => Ok (OFeat m' ls))
-  | Some _ => Err E_Type
-  | None => Err E_Value
+  match non_none (lookup K_start d), non_none (lookup K_stop d) with
+  | None, None =>
+      match lookup K_locs d with
+      | Some (OList l) => bind (location_tuple l) (fun ls => Ok (OFeat m' ls))
+      | None | Some ONone => Err E_Value                     (* 'No location specified' *)
+      | Some _ => Err E_Type
+      end
+  | st, sp =>
+      match non_none (lookup K_locs d) with
+      | Some _ => Err E_Value                                (* 'One of locs or start/stop can be given' *)
+      | None =>
+          bind (construct_loc ((match st with Some a => [(K_start, a)] | None => [] end)
+                               ++ (match sp with Some b => [(K_stop, b)] | None => [] end)
+                               ++ (match lookup K_strand d with Some s => [(K_strand, s)] | None => [] end)))
+               (fun lc => Ok (OFeat m' [lc]))
+      end
   end).
 
 (* FeatureList(KW d), fts.py:411-420 *)
@@ -252,7 +285,8 @@ Definition construct_fts (d : list (str * obj)) : res obj :=
   match lookup K_data d with
   | None | Some ONone => Ok (OFts [])
   | Some (OList l) => Ok (OFts l)
-  | Some (OFts l) => Ok (OFts l)
+  | Some (OFts l) => Ok (OFts l)                              (* hasattr(data, 'data'): data = data.data *)
+  | Some (OBasket l _) => Ok (OFts l)
   | Some _ => Err E_Type
   end.
 
@@ -268,7 +302,8 @@ Definition is_code (c : byte) : bool := existsb (fun p => byte_eqb (fst p) c) CO
 Definition infer_type (data : str) : str := if forallb is_code data then N_nt else N_aa.
 Definition truthy (o : obj) : bool :=
   match o with
-  | ONone => false | OBool b => b | OInt z => negb (Z.eqb z 0) | OFloat _ => true
+  | ONone => false | OBool b => b | OInt z => negb (Z.eqb z 0)
+  | OFloat l => negb (str_eqb l (bs "0.0"%bs) || str_eqb l (bs "-0.0"%bs))     (* floats travel as their repr *)
   | OStr s => match s with [] => false | _ => true end
   | OList l => match l with [] => false | _ => true end
   | ODict kv | OAttr _ kv => match kv with [] => false | _ => true end
@@ -282,6 +317,16 @@ Definition truthy (o : obj) : bool :=
 Definition construct_seq (d : list (str * obj)) : res obj :=
   if negb (only_keys SJSON_INIT_BioSeq d) then Err E_Type else
   match lookup K_data d with
+  | Some (OSeq s0 m0 _) =>                                    (* hasattr(data, 'meta'): str(data), meta = data.meta *)
+      let s := s0 in
+      bind (as_meta (OAttr CMeta m0)) (fun m =>
+      let id := match lookup K_id d with Some i => i | None => OStr [] end in
+      let m' := if truthy id || negb (has_key K_id m) then set_key K_id (conv_val id) m else m in
+      match lookup K_type d with
+      | None | Some ONone => Ok (OSeq (upper s) m' (infer_type (upper s)))
+      | Some (OStr t) => if str_eqb t N_nt || str_eqb t N_aa then Ok (OSeq (upper s) m' t) else Err E_Assert
+      | Some _ => Err E_Assert
+      end)
   | Some (OStr s) =>
       bind (opt_meta (lookup K_meta d)) (fun m =>
       let id := match lookup K_id d with Some i => i | None => OStr [] end in
@@ -309,6 +354,10 @@ Definition construct_basket (d : list (str * obj)) : res obj :=
   | Some (OList l) =>
       if existsb eq_meta_word l then Err E_Type
       else bind (opt_meta (lookup K_meta d)) (fun m => Ok (OBasket l m))
+  | Some (OFts l) =>
+      if existsb eq_meta_word l then Err E_Type
+      else bind (opt_meta (lookup K_meta d)) (fun m => Ok (OBasket l m))
+  | Some (OBasket l m0) => bind (as_meta (OAttr CMeta m0)) (fun m => Ok (OBasket l m))   (* hasattr(data, 'meta') *)
   | Some _ => Err E_Type
   end.
 
@@ -472,6 +521,146 @@ Fixpoint wf (o : obj) : bool :=
 Definition is_basket (o : obj) : bool := match o with OBasket _ _ => true | _ => false end.
 Definition wf_C14 (b : obj) : bool := is_basket b && wf b.
 
+(* ---- the observables the property names, as a flat view of a basket -------------------------------------------------------- *)
+(* per sequence: residues, type, and per feature of meta['fts'] the coordinates of every location *)
+Definition loc_view (o : obj) : Z * Z * str * Z :=
+  match o with OLoc a b s d _ => (a, b, s, d) | _ => (0%Z, 0%Z, [], 0%Z) end.
+Definition feat_view (o : obj) : list (Z * Z * str * Z) :=
+  match o with OFeat _ locs => map loc_view locs | _ => [] end.
+Definition K_fts : str := bs "fts"%bs.
+Definition seq_view (o : obj) : str * str * list (list (Z * Z * str * Z)) :=
+  match o with
+  | OSeq d m t => (d, t, match lookup K_fts m with Some (OFts fl) => map feat_view fl | _ => [] end)
+  | _ => ([], [], [])
+  end.
+Definition basket_view (o : obj) : list (str * str * list (list (Z * Z * str * Z))) :=
+  match o with OBasket data _ => map seq_view data | _ => [] end.
+(* JSON without any `_cls` key is returned as plain Python data *)
+Fixpoint plain_of (j : json) : obj :=
+  match j with
+  | JNull => ONone | JBool b => OBool b | JInt z => OInt z | JFloat l => OFloat l | JStr s => OStr s
+  | JArr l => OList (map plain_of l)
+  | JObj kv => ODict (map (fun p => match p with (k, v) => (k, plain_of v) end) kv)
+  end.
+Fixpoint no_cls (j : json) : bool :=
+  match j with
+  | JArr l => forallb no_cls l
+  | JObj kv => negb (has_key K_cls kv) && forallb (fun p => no_cls (snd p)) kv
+  | _ => true
+  end.
+Definition documented_error (e : str) : bool := mem_str e [E_Type; E_Value; E_Key; E_Assert].
+
+(* ---- hand-written SJSON: the domain on which the hook model claims to be faithful, errors included ---------------------- *)
+Definition is_jint (j : json) : bool := match j with JInt _ => true | _ => false end.
+Definition is_jnull (j : json) : bool := match j with JNull => true | _ => false end.
+Definition is_jstr (j : json) : bool := match j with JStr _ => true | _ => false end.
+Definition is_jobj (j : json) : bool := match j with JObj _ => true | _ => false end.
+Definition is_jarr (j : json) : bool := match j with JArr _ => true | _ => false end.
+Definition jstr_ascii (j : json) : bool :=
+  match j with JStr s => forallb (fun c => N.ltb (Byte.to_N c) 128) s | _ => false end.
+Definition jdefect_ok (j : json) : bool := match j with JInt z => Z.leb 0 z && Z.ltb z 256 | JNull => true | _ => false end.
+Definition jtag (j : json) : option str :=
+  match j with
+  | JObj kv => match lookup K_cls kv with Some (JStr n) => Some n | _ => None end
+  | _ => None
+  end.
+Definition jtag_in (names : list str) (j : json) : bool :=
+  match jtag j with Some n => mem_str n names | None => false end.
+Definition jopt (f : json -> bool) (o : option json) : bool := match o with None => true | Some j => f j end.
+Definition jor (f g : json -> bool) (j : json) : bool := f j || g j.
+(* a location written as a list: [start, stop(, strand(, defect(, meta)))] *)
+Definition jloc_list_ok (j : json) : bool :=
+  match j with
+  | JArr (JInt _ :: JInt _ :: rest) =>
+      match rest with
+      | [] => true
+      | s :: rest1 => jor is_jstr is_jnull s &&
+          match rest1 with
+          | [] => true
+          | d :: rest2 => jdefect_ok d &&
+              match rest2 with
+              | [] => true
+              | m :: rest3 => jor is_jnull is_jobj m && forallb (fun x => negb (is_jobj x) && negb (is_jarr x)) rest3
+              end
+          end
+      end
+  | _ => false
+  end.
+Definition jlocs_ok (j : json) : bool :=
+  match j with
+  | JNull => true
+  | JArr l => forallb (fun x => jtag_in [N_Location] x || jloc_list_ok x) l
+  | _ => false
+  end.
+Definition jfields_ok (name : str) (kv : list (str * json)) : bool :=
+  let f := fun k => lookup k kv in
+  if str_eqb name N_Location then
+    jopt is_jint (f K_start) && jopt is_jint (f K_stop) && jopt (jor is_jstr is_jnull) (f K_strand)
+    && jopt jdefect_ok (f K_defect) && jopt (jor is_jnull is_jobj) (f K_meta)
+  else if str_eqb name N_Feature then
+    jopt (jor is_jint is_jnull) (f K_start) && jopt (jor is_jint is_jnull) (f K_stop) && jopt (jor is_jstr is_jnull) (f K_strand)
+    && jopt jlocs_ok (f K_locs) && jopt (jor is_jnull is_jobj) (f K_meta)
+  else if str_eqb name N_FeatureList then
+    jopt (fun j => is_jnull j || is_jarr j || jtag_in [N_FeatureList; N_BioBasket] j) (f K_data)
+  else if str_eqb name N_BioSeq then
+    jopt (fun j => jstr_ascii j || jtag_in [N_BioSeq] j) (f K_data)
+    && jopt (fun j => negb (is_jobj j) && negb (is_jarr j)) (f K_id)
+    && jopt (jor is_jnull is_jobj) (f K_meta)
+  else if str_eqb name N_BioBasket then
+    jopt (fun j => is_jnull j || is_jarr j || jtag_in [N_FeatureList; N_BioBasket] j) (f K_data)
+    && jopt (jor is_jnull is_jobj) (f K_meta)
+  else true.
+(* the value of `_cls`: a class of SUGAR that is modelled, a name that is no global of the module (KeyError), or a
+   non-string whose truth value / hashability the model reproduces *)
+Definition jcls_ok (c : json) : bool :=
+  match c with
+  | JStr n => mem_str n [cls_name CAttr; cls_name CMeta; N_Location; N_Feature; N_FeatureList; N_BioSeq; N_BioBasket]
+              || negb (mem_str n SJSON_GLOBALS)
+  | JFloat _ => false
+  | JObj kv => negb (has_key K_cls kv)
+  | _ => true
+  end.
+Fixpoint jshape (j : json) : bool :=
+  match j with
+  | JArr l => forallb jshape l
+  | JObj kv =>
+      nodup_keys (keys kv) && forallb (fun k => negb (mem_str k SJSON_ATTR_RESERVED)) (keys kv)
+      && forallb (fun p => jshape (snd p)) kv
+      && match lookup K_cls kv with
+         | None => true
+         | Some c => jcls_ok c && match c with JStr n => jfields_ok n kv | _ => true end
+         end
+  | _ => true
+  end.
+(* read_sjson on arbitrary JSON (viaread = false), or sugar.read of a file whose top-level object is a tagged BioBasket *)
+Definition read_any (viaread : bool) (j : json) : res obj :=
+  if viaread then
+    bind (dec (match j with JObj kv => JObj ((K_fmtcomment, JStr SJSON_COMMENT) :: kv) | _ => j end)) read_glue
+  else dec j.
+Definition wf_json (viaread : bool) (j : json) : bool :=
+  jshape j &&
+  (negb viaread ||
+   (jtag_in [N_BioBasket] j && negb (match j with JObj kv => has_key K_fmtcomment kv | _ => false end) &&
+    match dec j with Ok (OBasket data _) => forallb is_seq data | Ok _ => false | Err _ => true end)).
+
+(* ---- the sniffer is_sjson, sjson.py:68-70, on the head of the written text ------------------------------------------------ *)
+Definition lower1 (c : byte) : byte :=
+  let n := Byte.to_N c in
+  if (N.leb 65 n && N.leb n 90)%N then match Byte.of_N (n + 32) with Some b => b | None => c end else c.
+Definition lower (s : str) : str := map lower1 s.
+Definition is_sjson (content : str) : bool :=
+  substr_b (lower (firstn SJSON_SNIFF_PREFIX SJSON_COMMENT)) (lower (firstn SJSON_SNIFF_READ content)).
+(* trusted text layer: json.dump with default separators starts an object whose first entry is a plain ASCII string pair with
+   brace, quoted key, colon, space, opening quote, value   (checked against the real text on every case by the driver) *)
+Definition plain_char (c : byte) : bool :=
+  let n := Byte.to_N c in (N.leb 32 n && N.ltb n 127 && negb (N.eqb n 34) && negb (N.eqb n 92))%N.
+Definition text_head (j : json) : str :=
+  match j with
+  | JObj ((k, JStr v) :: _) =>
+      if forallb plain_char k && forallb plain_char v then bs "{"""%bs ++ k ++ bs """: """%bs ++ v else []
+  | _ => []
+  end.
+
 (* ---- harness entry point -------------------------------------------------------------------------------------------- *)
 Fixpoint show_obj (o : obj) : val :=
   match o with
@@ -502,3 +691,4 @@ Fixpoint show_obj (o : obj) : val :=
   end.
 Definition show_res (r : res obj) : val := match r with Ok o => show_obj o | Err e => VE e end.
 Definition run_C14 (b : obj) : val := VL [VB (wf_C14 b); show_res (write_read b)].
+Definition run_C14_json (viaread : bool) (j : json) : val := VL [VB (wf_json viaread j); show_res (read_any viaread j)].
